@@ -184,6 +184,12 @@ def _gen_constraints(rng, stations, load, exact):
             if rng.random() < 0.3:
                 lim += rng.choice([0.5, 0.25, 0.0])
         cons.append({"name": f"c{k}", "coef": coef, "limit": lim})
+    # limits of VERY different magnitude in one network: a nominal feeder / service rating of hundreds of kA next to the small
+    # limits that bind (relative tolerance × limit is then far larger for the big row than the absolute tolerance of the small
+    # ones: tolerances are per constraint).  Private sub-generator: the shared main stream is not shifted.
+    sub = random.Random(repr(("huge", len(stations), [round(c["limit"], 6) for c in cons])))
+    if cons and not exact and sub.random() < 0.2:
+        cons.append({"name": f"c{len(cons)}", "coef": {s: 1.0 for s in ids}, "limit": float(sub.choice([2e5, 1e6, 2.5e7]))})
     return cons
 
 
